@@ -120,6 +120,9 @@ func property(t *rapid.T) {
 	if h.Cfg.CachedFns {
 		lbls = append(lbls, "cached-function-objects")
 	}
+	if h.Cfg.Listen {
+		lbls = append(lbls, "function-listeners")
+	}
 	sort.Strings(lbls)
 	evid.Case(keyOf(h), m.nontrivial, lbls...)
 	if excluded > 0 {
